@@ -67,3 +67,11 @@ def ff_report(p):
     finally:
         os.close(fd)
     return float(len(line))
+
+
+# module-level data a fitness function reads (a data set the user's script replaces between two searches)
+DATA = {"target": 0}
+
+
+def ff_data(p):
+    return float(abs(len(repr(p)) - DATA["target"]))
